@@ -21,6 +21,7 @@ import (
 	"fmt"
 	"net"
 	"net/netip"
+	"sort"
 	"strings"
 	"time"
 
@@ -659,6 +660,12 @@ func (p *pipeT) run(c clientT, proto string, cr *cliReq) *dns.Msg {
 	if !p.wireUsed {
 		ch.Reset(w, req)
 	}
+	if kind != 0 {
+		// an owned UDP/TCP listener: the server declares the byte-sink capability at
+		// ingress, which switches on the cache's byte-serving ladder (exact hits,
+		// NXDOMAIN cuts, failures served from bytes) and the edns wire wrapper
+		ch.AllowDirectPack()
+	}
 	ch.Next(context.Background())
 	return w.Msg()
 }
@@ -698,7 +705,11 @@ func pipeNew(f []string) vlib.Res {
 	}
 	spec := specFrom(f, false)
 	capS, pf := vlib.Atoi(f[6]), vlib.Atoi(f[7])
-	cfg := &config.Config{CacheSize: 1024, Expire: 600, Prefetch: uint32(pf), CookieSecret: "c19-secret", NSID: "c19"}
+	csize := 1024
+	if len(f) > 8 {
+		csize = vlib.Atoi(f[8]) // below 1024 (or prefetch > 90): cache.New takes its validation-failed branch
+	}
+	cfg := &config.Config{CacheSize: csize, Expire: 600, Prefetch: uint32(pf), CookieSecret: "c19-secret", NSID: "c19"}
 	cfg.ECS = config.ECSConfig{Enabled: spec.en, ForwardV4Max: uint8(spec.f4), ForwardV6Max: uint8(spec.f6),
 		MinScopeV4: uint8(spec.m4), MinScopeV6: uint8(spec.m6), ClientNetworks: netTexts(spec.nets),
 		CacheLimitTTL: config.Duration{Duration: time.Duration(capS) * time.Second}}
@@ -773,7 +784,10 @@ func pipeQ(f []string) vlib.Res {
 	served := idOfMsg(reply)
 	ropt := "noopt"
 	if o := reply.IsEdns0(); o != nil {
-		ropt = renderOpts(o.Option, false)
+		// as a sorted set: Msg path and byte path append in different orders
+		parts := strings.Split(renderOpts(o.Option, false), ",")
+		sort.Strings(parts)
+		ropt = strings.Join(parts, ",")
 	}
 	var or []string
 	if v := checkReply(allReplyOpts(reply)); v != "" {
